@@ -157,5 +157,11 @@ func checkRoomID(res *eventV3) error {
 	if !isCreateEvent && !strings.HasPrefix(res.eventFields.RoomID, "!") {
 		return fmt.Errorf("gomatrixserverlib: room_id must start with !")
 	}
+	if !isCreateEvent {
+		// RoomID() and AuthEventIDs() rely on a well-formed room ID.
+		if _, err := spec.NewRoomID(res.eventFields.RoomID); err != nil {
+			return fmt.Errorf("gomatrixserverlib: invalid room ID %q: %w", res.eventFields.RoomID, err)
+		}
+	}
 	return nil
 }
